@@ -514,3 +514,79 @@ Definition live_view (v : option nval) : option nval :=
   | Some (k, off, sz) => if (sz <? 0)%Z then None else Some (k, off, sz)
   | None => None
   end.
+
+(* ---------- CompactMap.AscendingVisit ---------- *)
+(* the merge of overflow and values[0..counter) of one section: the smaller Key first; a value
+   whose Key equals the current overflow Key is skipped (the overflow entry is visited later) *)
+Fixpoint merge_visit (s : section) (ov : list sval) : list sval -> list nval :=
+  fix go (vs : list sval) : list nval :=
+    match ov, vs with
+    | [], _ => map (to_nv s) vs                 (* for ; j < counter; j++ *)
+    | _, [] => map (to_nv s) ov                 (* for ; i < len(overflow); i++ *)
+    | o :: ov', v :: vs' =>
+        if sk o <? sk v then to_nv s o :: merge_visit s ov' vs
+        else if sk o =? sk v then go vs'
+        else to_nv s v :: go vs'
+    end.
+Definition asc_visit (cm : cmap) : list nval :=
+  flat_map (fun s => merge_visit s (s_overflow s) (s_values s)) cm.
+
+(* ---------- reopening a LevelDB map whose db directory is newer than the .idx ---------- *)
+(* isLevelDbFresh = true: the db is kept as it is (deleted keys keep their negated size), only
+   the counters are recomputed from the .idx *)
+Definition ldb_reopen_fresh (osz : N) (s : ldb) : ldb :=
+  {| l_db := l_db s; l_met := metric_from_index osz (l_idx s); l_idx := l_idx s |}.
+
+(* ---------- the counters newNeedleMapMetricFromIndexFile recomputes, in closed form ---------- *)
+(* of a history: the number of Puts / Deletes, and of Puts of a key not Put before *)
+Definition n_puts (ops : list op) : N :=
+  N.of_nat (length (filter (fun o => match o with Put _ _ _ => true | _ => false end) ops)).
+Definition n_dels (ops : list op) : N :=
+  N.of_nat (length (filter (fun o => match o with Del _ _ => true | _ => false end) ops)).
+Fixpoint n_first_puts_from (seen : list N) (ops : list op) : N :=
+  match ops with
+  | [] => 0
+  | Put k _ _ :: ops' =>
+      (if existsb (N.eqb k) seen then 0 else 1) + n_first_puts_from (k :: seen) ops'
+  | _ :: ops' => n_first_puts_from seen ops'
+  end.
+Definition n_first_puts (ops : list op) : N := n_first_puts_from [] ops.
+(* FileCounter = distinct keys, DeletionCounter = entries - distinct keys; the byte totals and
+   the maximum key are the running ones *)
+Definition reload_metric (ops : list op) (running : metric) : metric :=
+  {| m_del := (n_puts ops + n_dels ops - n_first_puts ops) mod two32;
+     m_file := n_first_puts ops mod two32;
+     m_delb := m_delb running; m_fileb := m_fileb running; m_max := m_max running |}.
+
+(* ---------- compact descriptions of long inputs (check/C05.v: the full-section case and
+   the long index files); proof/NeedleMapFill.v proves them equal to the plain runs ---------- *)
+Definition fill_size (i : N) : Z := (100 + Z.of_N (i mod 50))%Z.
+(* n Puts of the ascending keys base, base+step, ...: offset i+1, size fill_size i *)
+Fixpoint fill_ops_from (i : N) (n : nat) (base step : N) : list op :=
+  match n with
+  | O => []
+  | S n' => Put (base + i * step) (i + 1) (fill_size i) :: fill_ops_from (i + 1) n' base step
+  end.
+Definition fill_ops (base step n : N) : list op := fill_ops_from 0 (N.to_nat n) base step.
+Fixpoint fill_vals_from (i : N) (n : nat) (step : N) : list sval :=
+  match n with
+  | O => []
+  | S n' => mk_sval (i * step) (i + 1) (fill_size i) :: fill_vals_from (i + 1) n' step
+  end.
+(* the CompactMap after fill_ops (one section, nothing in the overflow list) *)
+Definition fill_cm (base step n : N) : cmap :=
+  if n =? 0 then []
+  else [ {| s_start := base; s_end := base + (n - 1) * step;
+            s_values := fill_vals_from 0 (N.to_nat n) step; s_overflow := [] |} ].
+(* n index entries with DESCENDING keys base+n*step, ..., base+step: offset i+1, size fill_size i *)
+Fixpoint fill_entries_from (i : N) (n : nat) (base step : N) : list entry :=
+  match n with
+  | O => []
+  | S n' => mk_entry (base + N.of_nat n * step) (i + 1) (fill_size i) :: fill_entries_from (i + 1) n' base step
+  end.
+Definition fill_entries (base step n : N) : list entry := fill_entries_from 0 (N.to_nat n) base step.
+
+(* the readers of an index file, on its entry list (= on [encode osz es], proof/NeedleMapFill.v) *)
+Definition ldb_load_entries (es : list entry) : omap := fold_left gen_step es [].
+Definition sorted_entries (es : list entry) : list entry := map entry_of_kv (fold_left rnm_step es []).
+Definition metric_entries_o (es : list entry) (ans : list bool) : metric := mfi_oracle metric0 (rev es) ans.
